@@ -114,6 +114,6 @@ def run(ctx):
         vanished_directory_scenario(viol)
     if viol:
         return dict(evaluations=1, distinct_nontrivial=1, rule="queries from several working directories", samples=[])
-    cov = deps_check.run_property(ctx, "C17", FEATURES["C17"], NCASES["C17"], WANT["C17"], known_matcher=KNOWN.get("C17"))
+    cov = deps_check.run_property(ctx, "C17", FEATURES["C17"], NCASES["C17"], WANT["C17"], known_matcher=deps_check.rule_removed_matcher("C17", KNOWN.get("C17")))
     cov["rule"] = "queries run from four working directories of one project (string-prefix sibling directories), before and after an edit; " + cov.get("rule", "")
     return cov
